@@ -1,6 +1,6 @@
 From Coq Require Import NArith.
 From Stam Require Import Base.Tac Model.Offset Model.Utf8 Model.Store Model.Validate
-     Spec.StoreSpec Spec.ValidateSpec Proofs.StoreInv Proofs.StoreSets Proofs.ValidateJoin Proofs.ValidateProtect Proofs.ValidateReload Props.C18.
+     Spec.StoreSpec Spec.ValidateSpec Proofs.StoreInv Proofs.StoreSets Proofs.ValidateJoin Proofs.ValidateProtect Proofs.ValidateReload Proofs.StoreSel Proofs.StoreRange Proofs.ValidateNest Props.C18.
 Check (C18_join_determines_pieces : forall d ps qs,
   map (@length N) ps = map (@length N) qs -> text_join d ps = text_join d qs -> ps = qs).
 Check (C18_validate_is_reference_check : forall H txts s a,
@@ -48,3 +48,15 @@ Print Assumptions C18_other_length_guarded.
 Print Assumptions Known_C18_regrouped_refuted.
 Print Assumptions C18_same_length_same_selection.
 Print Assumptions C18_same_parent_same_selection.
+Check (C18_same_lengths_same_selections : forall s lens, W2 s ->
+  (forall r rs, get_res s r = Some rs -> lens r = r_len rs) ->
+  reresolve s lens = Some (live_ranges s (seq 0 (length (anns s))))).
+Check (C18_reload_same_lengths : forall H txts txts' s m, reach s -> texts_fit s txts ->
+  map (@length N) txts = map (@length N) txts' ->
+  let s' := fst (protect H txts s m) in
+  reload_verdicts H s' txts' = Some (map (validate_ann H txts' s') (live_anns s'))).
+Check (C18_histories_ranges : forall ops, Forall op_ok ops -> W2 (run ops)).
+Print Assumptions C18_reachable_ranges.
+Print Assumptions C18_histories_ranges.
+Print Assumptions C18_same_lengths_same_selections.
+Print Assumptions C18_reload_same_lengths.
